@@ -326,7 +326,7 @@ func c30Ticks(r *vu.RNG) uint64 {
 	case 2:
 		return uint64(40 + r.Intn(200)) // long enough for small reputations to decay to 0
 	case 3:
-		if r.Chance(1, 3) { // about an hour: even a banned peer decays to 0 (and is forgotten when old and not connected)
+		if r.Chance(1, 30) { // about an hour: even a banned peer decays to 0 (and is forgotten when old and not connected)
 			return uint64(2500 + r.Intn(3000))
 		}
 	}
